@@ -91,6 +91,22 @@ def _work(job):
             out["verdict"] = "sat"
             m = s.model()
             out["model"] = {d.name(): _val(m[d]) for d in m.decls() if d.arity() == 0}
+            try:
+                apps, seen, stack = [], set(), list(hyps) + [goal]
+                while stack and len(apps) < 300:
+                    x = stack.pop()
+                    if x.get_id() in seen or not z3.is_app(x):
+                        continue
+                    seen.add(x.get_id())
+                    if x.num_args() > 0 and x.decl().kind() == z3.Z3_OP_UNINTERPRETED and x.decl().name() != "isnan":
+                        apps.append(x)
+                    stack.extend(x.children())
+                for x in apps:
+                    args = ",".join(str(_val(m.eval(c, model_completion=True))) for c in x.children())
+                    out["model"][f"{x.decl().name()}({args})"] = _val(m.eval(x, model_completion=True))
+                    out["model"][f"{x.decl().name()}@{x.sexpr()}"] = _val(m.eval(x, model_completion=True))
+            except Exception:
+                pass
         else:
             out["reason"] += "z3: " + s.reason_unknown()
     except Exception as e:
